@@ -109,6 +109,8 @@ pub use shuttle::thread_local;
 /// Mirror of `std::sync` for the items the pool uses; everything else is re-exported.
 pub mod sync {
     pub use shuttle::sync::atomic;
+    // (initialise-once cells are passed through: their initialisers run without scheduling points)
+    pub use std::sync::{LazyLock, OnceLock};
     pub use shuttle::sync::{
         Arc, Barrier, BarrierWaitResult, LockResult, MutexGuard, Once, OnceState, PoisonError, RwLock,
         RwLockReadGuard, RwLockWriteGuard, TryLockError, TryLockResult, Weak,
